@@ -203,6 +203,12 @@ func H_C15_single_ctest() {
 			}
 		}
 		symReach("parent")
+		// the parent helpers work on the list the parent already holds (also when it is
+		// empty): a handle taken before stays the list
+		if o != nil {
+			symAssert(p.OrderedList == o, "a parent helper replaced the ordered map the parent already held")
+			symAssert(p.GetOrCreateOrderedListMap() == o, "GetOrCreate...Map must return the existing ordered map")
+		}
 		o = p.OrderedList
 	}
 	c15Check1(o, m)
